@@ -28,6 +28,9 @@ def build_calendar(spec, anchor=MON):
     a = seams.midnight(anchor)
     if spec == 'wk58':
         return WeeklyCalendar(days=[0, 1, 2, 3, 4], units_per_day=8)
+    if spec == 'wk7':
+        # 7 units a day: shares of a day are not whole seconds, dates carry microseconds
+        return WeeklyCalendar(days=[0, 1, 2, 3, 4], units_per_day=7)
     if spec == 'sparse':
         return WeeklyCalendar(units_per_day={0: 4, 2: 2.5, 4: 8})
     if spec == 'direct':
@@ -76,7 +79,7 @@ def build_calendar(spec, anchor=MON):
     raise runtime.HarnessError('unknown calendar spec %r' % (spec,))
 
 
-CAL_MENU = ['none', 'wk58', 'sparse', 'direct', 'holidays', 'half', 'or2', 'bounded']
+CAL_MENU = ['none', 'wk58', 'sparse', 'direct', 'holidays', 'half', 'or2', 'bounded', 'wk7']
 NEVER_MENU = ['empty_direct', 'fixed0', 'weekly_noday', 'ended', 'notyet', 'tiny_direct']
 
 
